@@ -326,7 +326,7 @@ func TestVerif_C15(t *testing.T) {
 		}
 	}
 	// random multi-fault runs
-	for r := 0; r < vEnv.pick(240, 5000); r++ {
+	for r := 0; r < vEnv.pick(240, 40000); r++ {
 		idx++
 		if !vEnv.mine(idx) {
 			continue
